@@ -8,30 +8,30 @@ open PlasVerif.Model.Render PlasVerif.Spec.Split
 
 /-! ### forgetting the cached names -/
 mutual
-def erase : ATree → Tree
+def erase {ν} : ATree ν → Tree
   | .text m => .text m
   | .elem a _ ks => .elem a (eraseL ks)
-def eraseL : List ATree → List Tree
+def eraseL {ν} : List (ATree ν) → List Tree
   | [] => []
   | t :: ts => erase t :: eraseL ts
 end
 
 mutual
 /-- every element has a cached name exactly when its level is at or above `lvl` -/
-def ann (lvl : Int) : ATree → Bool
+def ann {ν} (lvl : Int) : ATree ν → Bool
   | .text _ => true
   | .elem a f ks => (f.isSome == decide (a.level ≤ lvl)) && annL lvl ks
-def annL (lvl : Int) : List ATree → Bool
+def annL {ν} (lvl : Int) : List (ATree ν) → Bool
   | [] => true
   | t :: ts => ann lvl t && annL lvl ts
 end
 
 mutual
 /-- cached names in document (pre-)order -/
-def fileNames : ATree → List String
+def fileNames {ν} : ATree ν → List ν
   | .text _ => []
   | .elem _ f ks => f.toList ++ fileNamesL ks
-def fileNamesL : List ATree → List String
+def fileNamesL {ν} : List (ATree ν) → List ν
   | [] => []
   | t :: ts => fileNames t ++ fileNamesL ts
 end
@@ -40,18 +40,19 @@ def unitReqs (lvl : Int) (t : Tree) : List Req := (units lvl t).map fun u => req
 def unitReqsL (lvl : Int) (ts : List Tree) : List Req := (unitsL lvl ts).map fun u => req u.attrs
 
 /-! ### equations -/
-@[simp] theorem erase_text (m) : erase (.text m) = .text m := by rw [erase]
-@[simp] theorem erase_elem (a f ks) : erase (.elem a f ks) = .elem a (eraseL ks) := by rw [erase]
-@[simp] theorem eraseL_nil : eraseL [] = [] := by rw [eraseL]
-@[simp] theorem eraseL_cons (t ts) : eraseL (t :: ts) = erase t :: eraseL ts := by rw [eraseL]
-@[simp] theorem ann_text (l m) : ann l (.text m) = true := by rw [ann]
-@[simp] theorem ann_elem (l a f ks) : ann l (.elem a f ks) = ((f.isSome == decide (a.level ≤ l)) && annL l ks) := by rw [ann]
-@[simp] theorem annL_nil (l) : annL l [] = true := by rw [annL]
-@[simp] theorem annL_cons (l t ts) : annL l (t :: ts) = (ann l t && annL l ts) := by rw [annL]
-@[simp] theorem fileNames_text (m) : fileNames (.text m) = [] := by rw [fileNames]
-@[simp] theorem fileNames_elem (a f ks) : fileNames (.elem a f ks) = f.toList ++ fileNamesL ks := by rw [fileNames]
-@[simp] theorem fileNamesL_nil : fileNamesL [] = [] := by rw [fileNamesL]
-@[simp] theorem fileNamesL_cons (t ts) : fileNamesL (t :: ts) = fileNames t ++ fileNamesL ts := by rw [fileNamesL]
+variable {ν : Type}
+@[simp] theorem erase_text (m) : erase (.text m : ATree ν) = .text m := by rw [erase]
+@[simp] theorem erase_elem (a) (f : Option ν) (ks) : erase (.elem a f ks) = .elem a (eraseL ks) := by rw [erase]
+@[simp] theorem eraseL_nil : eraseL ([] : List (ATree ν)) = [] := by rw [eraseL]
+@[simp] theorem eraseL_cons (t : ATree ν) (ts) : eraseL (t :: ts) = erase t :: eraseL ts := by rw [eraseL]
+@[simp] theorem ann_text (l m) : ann l (.text m : ATree ν) = true := by rw [ann]
+@[simp] theorem ann_elem (l a) (f : Option ν) (ks) : ann l (.elem a f ks) = ((f.isSome == decide (a.level ≤ l)) && annL l ks) := by rw [ann]
+@[simp] theorem annL_nil (l) : annL l ([] : List (ATree ν)) = true := by rw [annL]
+@[simp] theorem annL_cons (l) (t : ATree ν) (ts) : annL l (t :: ts) = (ann l t && annL l ts) := by rw [annL]
+@[simp] theorem fileNames_text (m) : fileNames (.text m : ATree ν) = [] := by rw [fileNames]
+@[simp] theorem fileNames_elem (a) (f : Option ν) (ks) : fileNames (.elem a f ks) = f.toList ++ fileNamesL ks := by rw [fileNames]
+@[simp] theorem fileNamesL_nil : fileNamesL ([] : List (ATree ν)) = [] := by rw [fileNamesL]
+@[simp] theorem fileNamesL_cons (t : ATree ν) (ts) : fileNamesL (t :: ts) = fileNames t ++ fileNamesL ts := by rw [fileNamesL]
 
 @[simp] theorem texts_text (m) : texts (.text m) = [m] := by rw [texts]
 @[simp] theorem texts_elem (a ks) : texts (.elem a ks) = textsL ks := by rw [texts]
@@ -63,7 +64,7 @@ def unitReqsL (lvl : Int) (ts : List Tree) : List Req := (unitsL lvl ts).map fun
 @[simp] theorem bodyL_cons (l t ts) : bodyL l (t :: ts) = body l t ++ bodyL l ts := by rw [bodyL]
 @[simp] theorem foot_text (l m) : foot l (.text m) = [] := by rw [foot]
 @[simp] theorem foot_elem (l a ks) :
-    foot l (.elem a ks) = if isUnit l a then [] else if a.foot then textsL ks else footL l ks := by rw [foot]
+    foot l (.elem a ks) = if isUnit l a then [] else if a.foot then footL l ks ++ bodyL l ks else footL l ks := by rw [foot]
 @[simp] theorem footL_nil (l) : footL l [] = [] := by rw [footL]
 @[simp] theorem footL_cons (l t ts) : footL l (t :: ts) = foot l t ++ footL l ts := by rw [footL]
 @[simp] theorem units_text (l m) : units l (.text m) = [] := by rw [units]
@@ -76,34 +77,38 @@ def unitReqsL (lvl : Int) (ts : List Tree) : List Req := (unitsL lvl ts).map fun
     owners l c (.elem a ks) = ownersL l (if isUnit l a then a.tag else c) ks := by rw [owners]
 @[simp] theorem ownersL_nil (l c) : ownersL l c [] = [] := by rw [ownersL]
 @[simp] theorem ownersL_cons (l c t ts) : ownersL l c (t :: ts) = owners l c t ++ ownersL l c ts := by rw [ownersL]
-@[simp] theorem wf_text (l i m) : wf l i (.text m) = true := by rw [wf]
-@[simp] theorem wf_elem (l i a ks) : wf l i (.elem a ks) =
-    ((if i then !isUnit l a && !a.foot else !(isUnit l a && a.foot)) && wfL l (i || a.foot) ks) := by rw [wf]
-@[simp] theorem wfL_nil (l i) : wfL l i [] = true := by rw [wfL]
-@[simp] theorem wfL_cons (l i t ts) : wfL l i (t :: ts) = (wf l i t && wfL l i ts) := by rw [wfL]
+@[simp] theorem wf_text (l m) : wf l (.text m) = true := by rw [wf]
+@[simp] theorem wf_elem (l a ks) : wf l (.elem a ks) = (!(isUnit l a && a.foot) && wfL l ks) := by rw [wf]
+@[simp] theorem wfL_nil (l) : wfL l [] = true := by rw [wfL]
+@[simp] theorem wfL_cons (l t ts) : wfL l (t :: ts) = (wf l t && wfL l ts) := by rw [wfL]
+@[simp] theorem footFree_text (l i m) : footFree l i (.text m) = true := by rw [footFree]
+@[simp] theorem footFree_elem (l i a ks) : footFree l i (.elem a ks) =
+    (!(i && isUnit l a) && footFreeL l (i || a.foot) ks) := by rw [footFree]
+@[simp] theorem footFreeL_nil (l i) : footFreeL l i [] = true := by rw [footFreeL]
+@[simp] theorem footFreeL_cons (l i t ts) : footFreeL l i (t :: ts) = (footFree l i t && footFreeL l i ts) := by rw [footFreeL]
 
-@[simp] theorem strKids_nil : strKids [] = ([], []) := by rw [strKids]
-@[simp] theorem strKids_cons (c cs) :
+@[simp] theorem strKids_nil : strKids ([] : List (ATree ν)) = ([], []) := by rw [strKids]
+@[simp] theorem strKids_cons (c : ATree ν) (cs) :
     strKids (c :: cs) = ((child c).1 ++ (strKids cs).1, (child c).2 ++ (strKids cs).2) := by rw [strKids]
-@[simp] theorem child_text (m) : child (.text m) = ([.txt m], []) := by rw [child]
-theorem child_none (a ks) : child (.elem a none ks) =
+@[simp] theorem child_text (m) : child (.text m : ATree ν) = ([.txt m], []) := by rw [child]
+theorem child_none (a) (ks : List (ATree ν)) : child (.elem a none ks) =
     (if a.foot then ([Tok.mark a.tag], []) else (.op a.tag :: ((strKids ks).1 ++ [.cl a.tag]), (strKids ks).2)) := by
   rw [child]
-theorem child_some (a n ks) : child (.elem a (some n) ks) =
-    ([], (if a.foot then ([Tok.mark a.tag], ([] : List File)) else (.op a.tag :: ((strKids ks).1 ++ [.cl a.tag]), (strKids ks).2)).2
+theorem child_some (a) (n : ν) (ks) : child (.elem a (some n) ks) =
+    ([], (if a.foot then ([Tok.mark a.tag], ([] : List (File ν))) else (.op a.tag :: ((strKids ks).1 ++ [.cl a.tag]), (strKids ks).2)).2
         ++ (if a.level < ENDSECTIONS_LEVEL then footOutL ks else ([], [])).2
-        ++ [(n, .lop a.tag :: ((if a.foot then ([Tok.mark a.tag], ([] : List File)) else (.op a.tag :: ((strKids ks).1 ++ [.cl a.tag]), (strKids ks).2)).1
+        ++ [(n, .lop a.tag :: ((if a.foot then ([Tok.mark a.tag], ([] : List (File ν))) else (.op a.tag :: ((strKids ks).1 ++ [.cl a.tag]), (strKids ks).2)).1
               ++ (if a.level < ENDSECTIONS_LEVEL then footOutL ks else ([], [])).1 ++ [.lcl a.tag]))]) := by
   rw [child]
-@[simp] theorem footOut_text (m) : footOut (.text m) = ([], []) := by rw [footOut]
-theorem footOut_elem (a f ks) : footOut (.elem a f ks) =
+@[simp] theorem footOut_text (m) : footOut (.text m : ATree ν) = ([], []) := by rw [footOut]
+theorem footOut_elem (a) (f : Option ν) (ks) : footOut (.elem a f ks) =
     (if a.foot then
-      ((if claims a f then (([], []) : List Tok × List File) else footOutL ks).1 ++ (.fop a.tag :: ((strKids ks).1 ++ [.fcl a.tag])),
-       (if claims a f then (([], []) : List Tok × List File) else footOutL ks).2 ++ (strKids ks).2)
+      ((if claims a f then (([], []) : List Tok × List (File ν)) else footOutL ks).1 ++ (.fop a.tag :: ((strKids ks).1 ++ [.fcl a.tag])),
+       (if claims a f then (([], []) : List Tok × List (File ν)) else footOutL ks).2 ++ (strKids ks).2)
      else (if claims a f then ([], []) else footOutL ks)) := by
   rw [footOut]
-@[simp] theorem footOutL_nil : footOutL [] = ([], []) := by rw [footOutL]
-@[simp] theorem footOutL_cons (c cs) :
+@[simp] theorem footOutL_nil : footOutL ([] : List (ATree ν)) = ([], []) := by rw [footOutL]
+@[simp] theorem footOutL_cons (c : ATree ν) (cs) :
     footOutL (c :: cs) = ((footOut c).1 ++ (footOutL cs).1, (footOut c).2 ++ (footOutL cs).2) := by rw [footOutL]
 
 /-! ### text markers of token lists -/
@@ -122,9 +127,9 @@ theorem footOut_elem (a f ks) : footOut (.elem a f ks) =
   | cons x xs ih => cases x <;> simp [ih]
 
 /-! ### the generator run -/
-theorem run_nil {σ} (g : Gen σ) (s : σ) : run g s [] = .ok ([], s) := rfl
+theorem run_nil {σ} (g : Gen σ ν) (s : σ) : run g s [] = .ok ([], s) := rfl
 
-theorem run_append {σ} (g : Gen σ) (r1 r2 : List Req) (s s1 s2 : σ) (n1 n2 : List String)
+theorem run_append {σ} (g : Gen σ ν) (r1 r2 : List Req) (s s1 s2 : σ) (n1 n2 : List ν)
     (h1 : run g s r1 = .ok (n1, s1)) (h2 : run g s1 r2 = .ok (n2, s2)) :
     run g s (r1 ++ r2) = .ok (n1 ++ n2, s2) := by
   induction r1 generalizing s n1 with
@@ -145,7 +150,7 @@ theorem run_append {σ} (g : Gen σ) (r1 r2 : List Req) (s s1 s2 : σ) (n1 n2 : 
         rw [ih s' ns hr]
         simp
 
-theorem run_length {σ} (g : Gen σ) (rs : List Req) (s s' : σ) (ns : List String)
+theorem run_length {σ} (g : Gen σ ν) (rs : List Req) (s s' : σ) (ns : List ν)
     (h : run g s rs = .ok (ns, s')) : ns.length = rs.length := by
   induction rs generalizing s ns with
   | nil => simp [run] at h; simp [h.1.symm]
@@ -166,7 +171,7 @@ theorem run_length {σ} (g : Gen σ) (rs : List Req) (s s' : σ) (ns : List Stri
 
 /-! ### what `cacheFilenames` guarantees -/
 mutual
-theorem assign_spec {σ} (g : Gen σ) (lvl : Int) (t : Tree) (s s' : σ) (t' : ATree)
+theorem assign_spec {σ} (g : Gen σ ν) (lvl : Int) (t : Tree) (s s' : σ) (t' : ATree ν)
     (h : assign g lvl s t = .ok (t', s')) :
     erase t' = t ∧ ann lvl t' = true ∧ run g s (unitReqs lvl t) = .ok (fileNames t', s') := by
   cases t with
@@ -208,7 +213,7 @@ theorem assign_spec {σ} (g : Gen σ) (lvl : Int) (t : Tree) (s s' : σ) (t' : A
             List.singleton_append]
           simp only [unitReqsL] at hr
           rw [hr]
-theorem assignL_spec {σ} (g : Gen σ) (lvl : Int) (ts : List Tree) (s s' : σ) (ts' : List ATree)
+theorem assignL_spec {σ} (g : Gen σ ν) (lvl : Int) (ts : List Tree) (s s' : σ) (ts' : List (ATree ν))
     (h : assignL g lvl s ts = .ok (ts', s')) :
     eraseL ts' = ts ∧ annL lvl ts' = true ∧ run g s (unitReqsL lvl ts) = .ok (fileNamesL ts', s') := by
   cases ts with
@@ -237,35 +242,45 @@ theorem assignL_spec {σ} (g : Gen σ) (lvl : Int) (ts : List Tree) (s s' : σ) 
         exact run_append g _ _ s s1 s2 _ _ hr hr2
 end
 
-/-! ### inside a footnote (no unit, no footnote below): everything is inline -/
+/-! ### without units inside footnotes, nothing is written while footnote text is printed -/
 mutual
-theorem infoot (lvl : Int) (t : ATree) (ha : ann lvl t = true) (hw : wf lvl true (erase t) = true) :
-    textsOf (child t).1 = texts (erase t) ∧ (child t).2 = [] ∧ footOut t = ([], []) ∧
-    fileNames t = [] ∧ units lvl (erase t) = [] := by
+theorem nofiles (lvl : Int) (i : Bool) (t : ATree ν) (ha : ann lvl t = true) (hw : footFree lvl i (erase t) = true) :
+    (footOut t).2 = [] ∧ (i = true → (child t).2 = []) := by
   cases t with
   | text m => simp
   | elem a f ks =>
-    simp only [erase_elem, wf_elem, if_true, Bool.true_or, Bool.and_eq_true, Bool.not_eq_true'] at hw
+    simp only [erase_elem, footFree_elem, Bool.and_eq_true, Bool.not_eq_true'] at hw
     simp only [ann_elem, Bool.and_eq_true, beq_iff_eq] at ha
-    obtain ⟨⟨hu, hf⟩, hwk⟩ := hw
     obtain ⟨hfile, hak⟩ := ha
-    have hu' : decide (a.level ≤ lvl) = false := by simpa [isUnit] using hu
-    rw [hu'] at hfile
-    have hnone : f = none := by cases f <;> simp_all
-    subst hnone
-    obtain ⟨i1, i2, i3, i4, i5⟩ := infootL lvl ks hak hwk
-    simp [child_none, footOut_elem, claims, hf, hu, i1, i2, i3, i4, i5]
-theorem infootL (lvl : Int) (ts : List ATree) (ha : annL lvl ts = true) (hw : wfL lvl true (eraseL ts) = true) :
-    textsOf (strKids ts).1 = textsL (eraseL ts) ∧ (strKids ts).2 = [] ∧ footOutL ts = ([], []) ∧
-    fileNamesL ts = [] ∧ unitsL lvl (eraseL ts) = [] := by
+    obtain ⟨hnu, hwk⟩ := hw
+    obtain ⟨k1, k2⟩ := nofilesL lvl (i || a.foot) ks hak hwk
+    refine ⟨?_, ?_⟩
+    · rw [footOut_elem]
+      by_cases hfoot : a.foot = true
+      · have k2' := k2 (by simp [hfoot])
+        by_cases hc : claims a f = true <;> simp [hfoot, hc, k1, k2']
+      · have hfoot' : a.foot = false := by simpa using hfoot
+        by_cases hc : claims a f = true <;> simp [hfoot', hc, k1]
+    · intro hi
+      subst hi
+      have hu : isUnit lvl a = false := by simpa using hnu
+      have hu' : decide (a.level ≤ lvl) = false := by simpa [isUnit] using hu
+      rw [hu'] at hfile
+      have hnone : f = none := by cases f <;> simp_all
+      subst hnone
+      have k2' := k2 (by simp)
+      by_cases hfoot : a.foot = true <;> simp [child_none, hfoot, k2']
+theorem nofilesL (lvl : Int) (i : Bool) (ts : List (ATree ν)) (ha : annL lvl ts = true)
+    (hw : footFreeL lvl i (eraseL ts) = true) :
+    (footOutL ts).2 = [] ∧ (i = true → (strKids ts).2 = []) := by
   cases ts with
   | nil => simp
   | cons t ts =>
-    simp only [eraseL_cons, wfL_cons, Bool.and_eq_true] at hw
+    simp only [eraseL_cons, footFreeL_cons, Bool.and_eq_true] at hw
     simp only [annL_cons, Bool.and_eq_true] at ha
-    obtain ⟨i1, i2, i3, i4, i5⟩ := infoot lvl t ha.1 hw.1
-    obtain ⟨j1, j2, j3, j4, j5⟩ := infootL lvl ts ha.2 hw.2
-    simp [i1, i2, i3, i4, i5, j1, j2, j3, j4, j5]
+    obtain ⟨i1, i2⟩ := nofiles lvl i t ha.1 hw.1
+    obtain ⟨j1, j2⟩ := nofilesL lvl i ts ha.2 hw.2
+    refine ⟨by simp [i1, j1], fun hi => by simp [i2 hi, j2 hi]⟩
 end
 
 /-! ### the main invariant of rendering on a consistently annotated, well-formed tree -/
@@ -273,37 +288,41 @@ theorem lt_ends_of_le {a lvl : Int} (hl : lvl < ENDSECTIONS_LEVEL) (h : a ≤ lv
   simp only [ENDSECTIONS_LEVEL] at *; omega
 
 mutual
-theorem main (lvl : Int) (hl : lvl < ENDSECTIONS_LEVEL) (t : ATree) (ha : ann lvl t = true)
-    (hw : wf lvl false (erase t) = true) :
+/-- the files written while a subtree is rendered (`child`) and while its footnote text is printed by the owning
+    layout (`footOut`) are together the files of the subtree's units -/
+theorem main (lvl : Int) (hl : lvl < ENDSECTIONS_LEVEL) (t : ATree ν) (ha : ann lvl t = true)
+    (hw : wf lvl (erase t) = true) :
     textsOf (child t).1 = body lvl (erase t) ∧
-    textsOf (footOut t).1 = foot lvl (erase t) ∧ (footOut t).2 = [] ∧
+    textsOf (footOut t).1 = foot lvl (erase t) ∧
     (fileNames t).length = (units lvl (erase t)).length ∧
-    List.Perm ((child t).2.map summary) (List.zipWith expected (fileNames t) (units lvl (erase t))) := by
+    List.Perm (((child t).2 ++ (footOut t).2).map summary)
+      (List.zipWith expected (fileNames t) (units lvl (erase t))) := by
   cases t with
   | text m => simp
   | elem a f ks =>
-    simp only [erase_elem, wf_elem, Bool.false_or, Bool.and_eq_true] at hw
+    simp only [erase_elem, wf_elem, Bool.and_eq_true] at hw
     simp only [ann_elem, Bool.and_eq_true, beq_iff_eq] at ha
     obtain ⟨hfile, hak⟩ := ha
     obtain ⟨hnf, hwk⟩ := hw
+    obtain ⟨i1, i2, i4, i5⟩ := mainL lvl hl ks hak hwk
     by_cases hu : a.level ≤ lvl
     · -- a unit: its own file
       have hU : isUnit lvl a = true := by simp [isUnit, hu]
       have hfoot : a.foot = false := by simpa [hU] using hnf
       have hsome : f.isSome = true := by simpa [hu] using hfile
       obtain ⟨n, rfl⟩ := Option.isSome_iff_exists.mp hsome
-      rw [hfoot] at hwk
-      obtain ⟨i1, i2, i3, i4, i5⟩ := mainL lvl hl ks hak hwk
       have hlt : a.level < ENDSECTIONS_LEVEL := lt_ends_of_le hl hu
-      refine ⟨by simp [child_some, hU], by simp [footOut_elem, claims, hlt, hfoot, hU], by simp [footOut_elem, claims, hlt, hfoot],
-        by simp [hU, i4], ?_⟩
-      simp only [child_some, hfoot, hlt, if_true, i3, List.append_nil, List.map_append, List.map_cons, List.map_nil,
+      refine ⟨by simp [child_some, hU], by simp [footOut_elem, claims, hlt, hfoot, hU], by simp [hU, i4], ?_⟩
+      have hfo : (footOut (ATree.elem a (some n) ks)).2 = [] := by simp [footOut_elem, claims, hlt, hfoot]
+      rw [hfo, List.append_nil]
+      simp only [child_some, hfoot, hlt, if_true, List.map_append, List.map_cons, List.map_nil,
         fileNames_elem, Option.toList_some, List.singleton_append, erase_elem, units_elem, hU, List.zipWith_cons_cons]
       have hs : summary (n, Tok.lop a.tag :: (Tok.op a.tag :: ((strKids ks).1 ++ [Tok.cl a.tag]) ++ (footOutL ks).1 ++ [Tok.lcl a.tag]))
           = expected n ⟨a, bodyL lvl (eraseL ks), footL lvl (eraseL ks)⟩ := by
         simp [summary, expected, i1, i2]
       simp only [Bool.false_eq_true, if_false]
       rw [hs]
+      simp only [List.map_append] at i5
       exact (List.perm_append_comm).trans (List.Perm.cons _ i5)
     · have hU : isUnit lvl a = false := by simp [isUnit, hu]
       have hnone : f = none := by
@@ -312,32 +331,103 @@ theorem main (lvl : Int) (hl : lvl < ENDSECTIONS_LEVEL) (t : ATree) (ha : ann lv
         | some n => simp [hu] at hfile
       subst hnone
       by_cases hfoot : a.foot = true
-      · -- a footnote: mark inline, text bubbles up
-        rw [hfoot] at hwk
-        obtain ⟨i1, i2, i3, i4, i5⟩ := infootL lvl ks hak hwk
-        simp [child_none, footOut_elem, claims, hfoot, hU, i1, i2, i3, i4, i5]
+      · -- a footnote: mark inline, text (and whatever its text writes) bubbles up
+        refine ⟨by simp [child_none, hfoot, hU], by simp [footOut_elem, claims, hfoot, hU, i1, i2], by simp [hU, i4], ?_⟩
+        simp only [child_none, footOut_elem, claims, hfoot, if_true, Option.isSome_none, Bool.false_and, Bool.false_eq_true,
+          if_false, List.nil_append, fileNames_elem, Option.toList_none, erase_elem, units_elem, hU]
+        exact (List.perm_append_comm.map summary).trans i5
       · have hfoot' : a.foot = false := by simpa using hfoot
-        rw [hfoot'] at hwk
-        obtain ⟨i1, i2, i3, i4, i5⟩ := mainL lvl hl ks hak hwk
-        simp [child_none, footOut_elem, claims, hfoot', hU, i1, i2, i3, i4, i5]
-theorem mainL (lvl : Int) (hl : lvl < ENDSECTIONS_LEVEL) (ts : List ATree) (ha : annL lvl ts = true)
-    (hw : wfL lvl false (eraseL ts) = true) :
+        refine ⟨by simp [child_none, hfoot', hU, i1], by simp [footOut_elem, claims, hfoot', hU, i2], by simp [hU, i4], ?_⟩
+        simpa [child_none, footOut_elem, claims, hfoot', hU] using i5
+theorem mainL (lvl : Int) (hl : lvl < ENDSECTIONS_LEVEL) (ts : List (ATree ν)) (ha : annL lvl ts = true)
+    (hw : wfL lvl (eraseL ts) = true) :
     textsOf (strKids ts).1 = bodyL lvl (eraseL ts) ∧
-    textsOf (footOutL ts).1 = footL lvl (eraseL ts) ∧ (footOutL ts).2 = [] ∧
+    textsOf (footOutL ts).1 = footL lvl (eraseL ts) ∧
     (fileNamesL ts).length = (unitsL lvl (eraseL ts)).length ∧
-    List.Perm ((strKids ts).2.map summary) (List.zipWith expected (fileNamesL ts) (unitsL lvl (eraseL ts))) := by
+    List.Perm (((strKids ts).2 ++ (footOutL ts).2).map summary)
+      (List.zipWith expected (fileNamesL ts) (unitsL lvl (eraseL ts))) := by
   cases ts with
   | nil => simp
   | cons t ts =>
     simp only [eraseL_cons, wfL_cons, Bool.and_eq_true] at hw
     simp only [annL_cons, Bool.and_eq_true] at ha
-    obtain ⟨i1, i2, i3, i4, i5⟩ := main lvl hl t ha.1 hw.1
-    obtain ⟨j1, j2, j3, j4, j5⟩ := mainL lvl hl ts ha.2 hw.2
-    refine ⟨by simp [i1, j1], by simp [i2, j2], by simp [i3, j3], by simp [i4, j4], ?_⟩
-    simp only [strKids_cons, List.map_append, fileNamesL_cons, eraseL_cons, unitsL_cons]
+    obtain ⟨i1, i2, i4, i5⟩ := main lvl hl t ha.1 hw.1
+    obtain ⟨j1, j2, j4, j5⟩ := mainL lvl hl ts ha.2 hw.2
+    refine ⟨by simp [i1, j1], by simp [i2, j2], by simp [i4, j4], ?_⟩
+    simp only [strKids_cons, footOutL_cons, fileNamesL_cons, eraseL_cons, unitsL_cons]
     rw [List.zipWith_append i4]
-    exact List.Perm.append i5 j5
+    have h := List.Perm.append i5 j5
+    rw [← List.map_append] at h
+    refine List.Perm.trans (List.Perm.map summary ?_) h
+    -- (A₁ ++ A₂) ++ (B₁ ++ B₂) ~ (A₁ ++ B₁) ++ (A₂ ++ B₂)
+    simp only [List.append_assoc]
+    exact List.Perm.append_left _ (List.perm_append_comm_assoc _ _ _)
 end
+
+/-! ### the children of the document node: only `document` elements are rendered, the others write nothing -/
+
+theorem mem_eraseL (t : ATree ν) (ts : List (ATree ν)) (h : t ∈ ts) : erase t ∈ eraseL ts := by
+  induction ts with
+  | nil => simp at h
+  | cons x xs ih =>
+    simp only [eraseL_cons, List.mem_cons] at h ⊢
+    rcases h with rfl | h
+    · exact Or.inl rfl
+    · exact Or.inr (ih h)
+
+/-- a subtree without units writes no file -/
+theorem inert_nofiles (lvl : Int) (hl : lvl < ENDSECTIONS_LEVEL) (t : ATree ν) (ha : ann lvl t = true)
+    (hw : wf lvl (erase t) = true) (hu : units lvl (erase t) = []) : (child t).2 = [] ∧ (footOut t).2 = [] := by
+  obtain ⟨_, _, _, i5⟩ := main lvl hl t ha hw
+  rw [hu, List.zipWith_nil_right] at i5
+  have : ((child t).2 ++ (footOut t).2).map summary = [] := i5.eq_nil
+  have h2 : (child t).2 ++ (footOut t).2 = [] := by simpa using this
+  exact List.append_eq_nil_iff.mp h2
+
+theorem isDocLevel_erase (t : ATree ν) : t.isDocLevel = isDocRoot (erase t) := by
+  cases t <;> simp [ATree.isDocLevel, isDocRoot]
+
+theorem tops_render (lvl : Int) (hl : lvl < ENDSECTIONS_LEVEL) (ts : List (ATree ν)) (ha : annL lvl ts = true)
+    (hw : wfL lvl (eraseL ts) = true)
+    (hall : ∀ t ∈ ts, isDocRoot (erase t) = true ∨ units lvl (erase t) = [])
+    (hcorner : DOCUMENT_LEVEL ≤ lvl ∨ footFreeL lvl false (eraseL ts) = true) :
+    (footOutL ts).2 = [] ∧ (strKids (ts.filter ATree.isDocLevel)).2 = (strKids ts).2 := by
+  induction ts with
+  | nil => simp
+  | cons t ts ih =>
+    simp only [eraseL_cons, wfL_cons, Bool.and_eq_true] at hw
+    simp only [annL_cons, Bool.and_eq_true] at ha
+    have hcorner' : DOCUMENT_LEVEL ≤ lvl ∨ footFreeL lvl false (eraseL ts) = true := by
+      rcases hcorner with h | h
+      · exact Or.inl h
+      · simp only [eraseL_cons, footFreeL_cons, Bool.and_eq_true] at h; exact Or.inr h.2
+    obtain ⟨j1, j2⟩ := ih ha.2 hw.2 (fun x hx => hall x (List.mem_cons_of_mem _ hx)) hcorner'
+    have hfo : (footOut t).2 = [] := by
+      rcases hcorner with hlow | hff
+      · rcases hall t (List.mem_cons_self ..) with hdoc | hin
+        · cases t with
+          | text m => simp
+          | elem a f ks =>
+            have hd : a.level = DOCUMENT_LEVEL := by simpa [isDocRoot] using hdoc
+            have hu : a.level ≤ lvl := by rw [hd]; exact hlow
+            have ha1 := ha.1
+            simp only [ann_elem, Bool.and_eq_true, beq_iff_eq] at ha1
+            have hsome : f.isSome = true := by simpa [hu] using ha1.1
+            have hw1 := hw.1
+            simp only [erase_elem, wf_elem, Bool.and_eq_true] at hw1
+            have hfoot : a.foot = false := by simpa [isUnit, hu] using hw1.1
+            simp [footOut_elem, claims, hsome, lt_ends_of_le hl hu, hfoot]
+        · exact (inert_nofiles lvl hl t ha.1 hw.1 hin).2
+      · simp only [eraseL_cons, footFreeL_cons, Bool.and_eq_true] at hff
+        exact (nofiles lvl false t ha.1 hff.1).1
+    refine ⟨by simp [hfo, j1], ?_⟩
+    by_cases hdl : t.isDocLevel = true
+    · simp [hdl, j2]
+    · have hdl' : isDocRoot (erase t) = false := by rw [← isDocLevel_erase]; simpa using hdl
+      rcases hall t (List.mem_cons_self ..) with hdoc | hin
+      · rw [hdl'] at hdoc; cases hdoc
+      · have := (inert_nofiles lvl hl t ha.1 hw.1 hin).1
+        simp [hdl, j2, this]
 
 /-! ### facts about the prescription itself (no model involved) -/
 
@@ -349,61 +439,32 @@ def utexts (us : List PlasVerif.Spec.Split.Unit) : List Nat := us.flatMap fun u 
 @[simp] theorem utexts_append (a b) : utexts (a ++ b) = utexts a ++ utexts b := by simp [utexts]
 
 mutual
-theorem spec_infoot (lvl : Int) (t : Tree) (hw : wf lvl true t = true) :
-    units lvl t = [] ∧ body lvl t = texts t ∧ foot lvl t = [] ∧ ∀ cur m u, (m, u) ∈ owners lvl cur t → u = cur ∧ m ∈ texts t := by
-  cases t with
-  | text m => simp
-  | elem a ks =>
-    simp only [wf_elem, if_true, Bool.true_or, Bool.and_eq_true, Bool.not_eq_true'] at hw
-    obtain ⟨⟨hu, hf⟩, hwk⟩ := hw
-    obtain ⟨i1, i2, i3, i4⟩ := spec_infootL lvl ks hwk
-    refine ⟨by simp [hu, i1], by simp [hu, hf, i2], by simp [hu, hf, i3], ?_⟩
-    intro cur m u h
-    simp only [owners_elem, hu, Bool.false_eq_true, if_false] at h
-    simpa using i4 cur m u h
-theorem spec_infootL (lvl : Int) (ts : List Tree) (hw : wfL lvl true ts = true) :
-    unitsL lvl ts = [] ∧ bodyL lvl ts = textsL ts ∧ footL lvl ts = [] ∧
-    ∀ cur m u, (m, u) ∈ ownersL lvl cur ts → u = cur ∧ m ∈ textsL ts := by
-  cases ts with
-  | nil => simp
-  | cons t ts =>
-    simp only [wfL_cons, Bool.and_eq_true] at hw
-    obtain ⟨i1, i2, i3, i4⟩ := spec_infoot lvl t hw.1
-    obtain ⟨j1, j2, j3, j4⟩ := spec_infootL lvl ts hw.2
-    refine ⟨by simp [i1, j1], by simp [i2, j2], by simp [i3, j3], ?_⟩
-    intro cur m u h
-    simp only [ownersL_cons, List.mem_append] at h
-    rcases h with h | h
-    · have := i4 cur m u h; simp [this.1, this.2]
-    · have := j4 cur m u h; simp [this.1, this.2]
-end
-
-mutual
-/-- nothing is lost and nothing repeated by the prescription: the texts of all units of a subtree plus what the
-    subtree contributes to the enclosing unit are the texts of the subtree -/
-theorem conserve (lvl : Int) (t : Tree) (hw : wf lvl false t = true) :
+-- nothing is lost and nothing repeated by the prescription: the texts of all units of a subtree plus what the
+-- subtree contributes to the enclosing unit are the texts of the subtree
+theorem conserve (lvl : Int) (t : Tree) (hw : wf lvl t = true) :
     List.Perm (utexts (units lvl t) ++ (body lvl t ++ foot lvl t)) (texts t) := by
   cases t with
   | text m => simp
   | elem a ks =>
-    simp only [wf_elem, Bool.false_or, Bool.and_eq_true] at hw
+    simp only [wf_elem, Bool.and_eq_true] at hw
     obtain ⟨hnf, hwk⟩ := hw
+    have ih := conserveL lvl ks hwk
     by_cases hU : isUnit lvl a = true
     · have hfoot : a.foot = false := by simpa [hU] using hnf
-      rw [hfoot] at hwk
-      have ih := conserveL lvl ks hwk
       simp only [units_elem, hU, if_true, utexts_cons, body_elem, Bool.true_or, foot_elem, List.append_nil, texts_elem]
       exact (List.perm_append_comm).trans ih
     · have hU' : isUnit lvl a = false := by simpa using hU
       by_cases hfoot : a.foot = true
-      · rw [hfoot] at hwk
-        obtain ⟨i1, _, _, _⟩ := spec_infootL lvl ks hwk
-        simp [hU', hfoot, i1]
+      · simp only [units_elem, hU', Bool.false_eq_true, if_false, body_elem, hfoot, Bool.or_true, if_true, foot_elem,
+          List.nil_append, texts_elem]
+        rw [List.perm_iff_count] at *
+        intro x
+        have := ih x
+        simp only [List.count_append] at *
+        omega
       · have hfoot' : a.foot = false := by simpa using hfoot
-        rw [hfoot'] at hwk
-        have ih := conserveL lvl ks hwk
         simpa [hU', hfoot'] using ih
-theorem conserveL (lvl : Int) (ts : List Tree) (hw : wfL lvl false ts = true) :
+theorem conserveL (lvl : Int) (ts : List Tree) (hw : wfL lvl ts = true) :
     List.Perm (utexts (unitsL lvl ts) ++ (bodyL lvl ts ++ footL lvl ts)) (textsL ts) := by
   cases ts with
   | nil => simp
@@ -421,35 +482,33 @@ theorem conserveL (lvl : Int) (ts : List Tree) (hw : wfL lvl false ts = true) :
 end
 
 mutual
-/-- the nearest enclosing unit of a text is the unit whose region holds it -/
-theorem owners_spec (lvl : Int) (t : Tree) (hw : wf lvl false t = true) (cur m u : Nat)
+-- the nearest enclosing unit of a text is the unit whose region holds it
+theorem owners_spec (lvl : Int) (t : Tree) (hw : wf lvl t = true) (cur m u : Nat)
     (h : (m, u) ∈ owners lvl cur t) :
     (u = cur ∧ m ∈ body lvl t ++ foot lvl t) ∨ ∃ un ∈ units lvl t, un.attrs.tag = u ∧ m ∈ un.body ++ un.foot := by
   cases t with
   | text m' => simp at h; simp [h.1, h.2]
   | elem a ks =>
-    simp only [wf_elem, Bool.false_or, Bool.and_eq_true] at hw
+    simp only [wf_elem, Bool.and_eq_true] at hw
     obtain ⟨hnf, hwk⟩ := hw
     by_cases hU : isUnit lvl a = true
-    · have hfoot : a.foot = false := by simpa [hU] using hnf
-      rw [hfoot] at hwk
-      simp only [owners_elem, hU, if_true] at h
+    · simp only [owners_elem, hU, if_true] at h
       right
       rcases owners_specL lvl ks hwk a.tag m u h with ⟨h1, h2⟩ | ⟨un, h1, h2⟩
       · exact ⟨⟨a, bodyL lvl ks, footL lvl ks⟩, by simp [hU], h1.symm, h2⟩
       · exact ⟨un, by simp [hU, h1], h2⟩
     · have hU' : isUnit lvl a = false := by simpa using hU
       simp only [owners_elem, hU', Bool.false_eq_true, if_false] at h
-      by_cases hfoot : a.foot = true
-      · rw [hfoot] at hwk
-        obtain ⟨_, _, _, i4⟩ := spec_infootL lvl ks hwk
-        have := i4 cur m u h
-        left
-        simp [hU', hfoot, this.1, this.2]
-      · have hfoot' : a.foot = false := by simpa using hfoot
-        rw [hfoot'] at hwk
-        simpa [hU', hfoot'] using owners_specL lvl ks hwk cur m u h
-theorem owners_specL (lvl : Int) (ts : List Tree) (hw : wfL lvl false ts = true) (cur m u : Nat)
+      rcases owners_specL lvl ks hwk cur m u h with ⟨h1, h2⟩ | ⟨un, h1, h2⟩
+      · left
+        refine ⟨h1, ?_⟩
+        by_cases hfoot : a.foot = true
+        · simp only [List.mem_append] at h2
+          rcases h2 with h2 | h2 <;> simp [hU', hfoot, h2]
+        · have hfoot' : a.foot = false := by simpa using hfoot
+          simpa [hU', hfoot'] using h2
+      · right; exact ⟨un, by simp [hU', h1], h2⟩
+theorem owners_specL (lvl : Int) (ts : List Tree) (hw : wfL lvl ts = true) (cur m u : Nat)
     (h : (m, u) ∈ ownersL lvl cur ts) :
     (u = cur ∧ m ∈ bodyL lvl ts ++ footL lvl ts) ∨ ∃ un ∈ unitsL lvl ts, un.attrs.tag = u ∧ m ∈ un.body ++ un.foot := by
   cases ts with
@@ -471,7 +530,7 @@ theorem owners_specL (lvl : Int) (ts : List Tree) (hw : wfL lvl false ts = true)
 end
 
 /-! ### zipping names with units -/
-theorem zipWith_expected_texts (names : List String) (us : List PlasVerif.Spec.Split.Unit) (h : names.length = us.length) :
+theorem zipWith_expected_texts (names : List ν) (us : List PlasVerif.Spec.Split.Unit) (h : names.length = us.length) :
     (List.zipWith expected names us).flatMap (fun e => e.2.2) = utexts us := by
   induction names generalizing us with
   | nil => cases us <;> simp_all
@@ -480,7 +539,7 @@ theorem zipWith_expected_texts (names : List String) (us : List PlasVerif.Spec.S
     | nil => simp at h
     | cons u us => simp [expected, ih us (by simpa using h)]
 
-theorem zipWith_expected_names (names : List String) (us : List PlasVerif.Spec.Split.Unit) (h : names.length = us.length) :
+theorem zipWith_expected_names (names : List ν) (us : List PlasVerif.Spec.Split.Unit) (h : names.length = us.length) :
     (List.zipWith expected names us).map (fun e => e.1) = names := by
   induction names generalizing us with
   | nil => cases us <;> simp_all
@@ -489,7 +548,7 @@ theorem zipWith_expected_names (names : List String) (us : List PlasVerif.Spec.S
     | nil => simp at h
     | cons u us => simp [expected, ih us (by simpa using h)]
 
-theorem zipWith_expected_content (names : List String) (us : List PlasVerif.Spec.Split.Unit) (h : names.length = us.length) :
+theorem zipWith_expected_content (names : List ν) (us : List PlasVerif.Spec.Split.Unit) (h : names.length = us.length) :
     (List.zipWith expected names us).map (fun e => e.2) = us.map fun u => (some (Tok.lop u.attrs.tag), u.body ++ u.foot) := by
   induction names generalizing us with
   | nil => cases us <;> simp_all
@@ -498,7 +557,7 @@ theorem zipWith_expected_content (names : List String) (us : List PlasVerif.Spec
     | nil => simp at h
     | cons u us => simp [expected, ih us (by simpa using h)]
 
-theorem zipWith_expected_mem (names : List String) (us : List PlasVerif.Spec.Split.Unit) (h : names.length = us.length) (u : PlasVerif.Spec.Split.Unit)
+theorem zipWith_expected_mem (names : List ν) (us : List PlasVerif.Spec.Split.Unit) (h : names.length = us.length) (u : PlasVerif.Spec.Split.Unit)
     (hu : u ∈ us) : ∃ n, expected n u ∈ List.zipWith expected names us := by
   induction names generalizing us with
   | nil => cases us <;> simp_all
@@ -512,7 +571,7 @@ theorem zipWith_expected_mem (names : List String) (us : List PlasVerif.Spec.Spl
       · obtain ⟨n', hn'⟩ := ih vs (by simpa using h) hu
         exact ⟨n', by simp [hn']⟩
 
-theorem zipWith_expected_mem' (names : List String) (us : List PlasVerif.Spec.Split.Unit) (e : String × Option Tok × List Nat)
+theorem zipWith_expected_mem' (names : List ν) (us : List PlasVerif.Spec.Split.Unit) (e : ν × Option Tok × List Nat)
     (he : e ∈ List.zipWith expected names us) : ∃ u ∈ us, e.2 = (some (Tok.lop u.attrs.tag), u.body ++ u.foot) := by
   induction names generalizing us with
   | nil => simp at he
@@ -525,5 +584,124 @@ theorem zipWith_expected_mem' (names : List String) (us : List PlasVerif.Spec.Sp
       · exact ⟨v, by simp, rfl⟩
       · obtain ⟨u, hu, h⟩ := ih vs he
         exact ⟨u, by simp [hu], h⟩
+
+/-! ### the failure path: `cacheFilenames` fails exactly when a name request fails -/
+
+/-- `run` over a concatenation, in every case (success and failure) -/
+theorem run_append_eq {σ} (g : Gen σ ν) (r1 r2 : List Req) (s : σ) :
+    run g s (r1 ++ r2) =
+      match run g s r1 with
+      | .error e => .error e
+      | .ok (n1, s1) =>
+        match run g s1 r2 with
+        | .error e => .error e
+        | .ok (n2, s2) => .ok (n1 ++ n2, s2) := by
+  induction r1 generalizing s with
+  | nil =>
+    simp only [List.nil_append, run]
+    cases run g s r2 with
+    | error e => rfl
+    | ok p => obtain ⟨n, s'⟩ := p; rfl
+  | cons r rs ih =>
+    simp only [List.cons_append, run]
+    cases hg : g.next s r with
+    | error e => rfl
+    | ok p =>
+      obtain ⟨n, s1⟩ := p
+      simp only []
+      rw [ih s1]
+      cases run g s1 rs with
+      | error e => rfl
+      | ok q =>
+        obtain ⟨ns, s2⟩ := q
+        simp only []
+        cases run g s2 r2 with
+        | error e => rfl
+        | ok q2 => obtain ⟨n2, s3⟩ := q2; simp
+
+mutual
+/-- `cacheFilenames` on a subtree is the generator run over the subtree's unit requests: same names, same final
+    state, and the same exception when a request fails -/
+theorem assign_run {σ} (g : Gen σ ν) (lvl : Int) (t : Tree) (s : σ) :
+    (assign g lvl s t).map (fun p => (fileNames p.1, p.2)) = run g s (unitReqs lvl t) := by
+  cases t with
+  | text m => rw [assign]; simp [unitReqs, run, Except.map]
+  | elem a ks =>
+    rw [assign]
+    have ih := assignL_run g lvl ks
+    by_cases hl : a.level > lvl
+    · have hu : isUnit lvl a = false := by simp [isUnit]; omega
+      simp only [filenameOf, hl, if_true, unitReqs, units_elem, hu, Bool.false_eq_true, if_false]
+      have ih' := ih s
+      simp only [unitReqsL] at ih'
+      rw [← ih']
+      cases assignL g lvl s ks with
+      | error e => rfl
+      | ok p => obtain ⟨ks', s2⟩ := p; simp [Except.map]
+    · have hu : isUnit lvl a = true := by simp [isUnit]; omega
+      simp only [filenameOf, hl, if_false, unitReqs, units_elem, hu, if_true, List.map_cons, run]
+      cases g.next s (req a) with
+      | error e => rfl
+      | ok q =>
+        obtain ⟨n, s1⟩ := q
+        simp only []
+        have ih' := ih s1
+        simp only [unitReqsL] at ih'
+        rw [← ih']
+        cases assignL g lvl s1 ks with
+        | error e => rfl
+        | ok p => obtain ⟨ks', s2⟩ := p; simp [Except.map]
+theorem assignL_run {σ} (g : Gen σ ν) (lvl : Int) (ts : List Tree) (s : σ) :
+    (assignL g lvl s ts).map (fun p => (fileNamesL p.1, p.2)) = run g s (unitReqsL lvl ts) := by
+  cases ts with
+  | nil => rw [assignL]; simp [unitReqsL, run, Except.map]
+  | cons t ts =>
+    rw [assignL]
+    have h1 := assign_run g lvl t s
+    simp only [unitReqsL, unitsL_cons, List.map_append]
+    rw [run_append_eq]
+    simp only [unitReqs] at h1
+    rw [← h1]
+    cases assign g lvl s t with
+    | error e => rfl
+    | ok p =>
+      obtain ⟨t', s1⟩ := p
+      simp only [Except.map]
+      have h2 := assignL_run g lvl ts s1
+      simp only [unitReqsL] at h2
+      rw [← h2]
+      cases assignL g lvl s1 ts with
+      | error e => rfl
+      | ok q => obtain ⟨ts', s2⟩ := q; simp [Except.map]
+end
+
+/-- the request of the document node itself (only at split levels ≥ 1001) -/
+def docReqs (lvl : Int) : List Req := if documentNode.level > lvl then [] else [req documentNode]
+
+/-- every name request of one rendering, in the order the requests are made -/
+def allReqs (lvl : Int) (tops : List Tree) : List Req := docReqs lvl ++ unitReqsL lvl tops
+
+theorem render_run {σ} (g : Gen σ ν) (s0 : σ) (split : Int) (tmpl : List Char) (tops : List Tree) :
+    (render g s0 split tmpl tops).map (fun _ => ()) =
+      (run g s0 (allReqs (effLevel split tmpl) tops)).map (fun _ => ()) := by
+  simp only [render, allReqs]
+  generalize effLevel split tmpl = lvl
+  rw [run_append_eq]
+  by_cases hl : documentNode.level > lvl
+  · simp only [filenameOf, docReqs, hl, if_true, run]
+    rw [← assignL_run g lvl tops s0]
+    cases assignL g lvl s0 tops with
+    | error e => rfl
+    | ok p => obtain ⟨a, b⟩ := p; rfl
+  · simp only [filenameOf, docReqs, hl, if_false, run]
+    cases g.next s0 (req documentNode) with
+    | error e => rfl
+    | ok q =>
+      obtain ⟨n, s1⟩ := q
+      simp only []
+      rw [← assignL_run g lvl tops s1]
+      cases assignL g lvl s1 tops with
+      | error e => rfl
+      | ok p => obtain ⟨a, b⟩ := p; rfl
 
 end PlasVerif.Proofs.Render
